@@ -271,7 +271,7 @@ class PVLParser(object):
                     parsing = True
                 else:
                     return m
-            except LexerError:
+            except (LexerError, ParseError):
                 # The hook consumed tokens and then found an anomaly:
                 # that is an error in the text, not a hook that
                 # declines to help.
